@@ -115,6 +115,8 @@ def cases(tier: str, seed: int) -> List[Dict[str, Any]]:
     for n, k in enumerate(KEYS):
         out.append({"kind": "analyse", "prog": {"items": [["op", "linear:nn"], ["op", k], ["op", "gelu:F"]], "first": "x",
                                                 "sink": "sum" if n % 2 else "tensor"}, "seed": seed})
+        out.append({"kind": "analyse", "recurse": False, "seed": seed,
+                    "prog": {"items": [["op", "linear:nn"], ["op", k], ["op", "gelu:nn"], ["op", "layer_norm:nn"]], "first": "x", "sink": "sum" if n % 2 else "tensor"}})
     return out
 
 
@@ -156,8 +158,14 @@ def run_case(case: Dict[str, Any]) -> Dict[str, Any]:
         before = {k: v.clone() for k, v in m.state_dict().items()}
         x = inp[0].clone().requires_grad_(True)
         up = None if prog["sink"] == "sum" else torch.linspace(-1, 1, y_plain[0].numel()).reshape(y_plain[0].shape)
+        recurse = bool(case.get("recurse", True))
+        if not recurse:
+            ident += "|recurse_modules=False"
         try:
-            code = uutils.analyse_module(m, (x,), up, syntax_highlight=False)
+            if recurse:
+                code = uutils.analyse_module(m, (x,), up, syntax_highlight=False)
+            else:
+                code = uutils.analyse_module(m, (x,), up, recurse_modules=False, syntax_highlight=False)
         except Exception as e:  # noqa
             v = exception_violation(e, ident)
             v["msg"] += "\n" + src
@@ -180,6 +188,32 @@ def run_case(case: Dict[str, Any]) -> Dict[str, Any]:
                 pairs.append((float(v.std()) if v.numel() > 1 else float("nan"),
                               float(gr.std()) if gr is not None and gr.numel() > 1 else None))
         ann = re.findall(r"\(-> ([0-9.e+-]+|n/a|nan), <- ([0-9.e+-]+|n/a|nan)\)", code)
+        # completeness: as many annotated lines as float-tensor nodes in an independent stock-fx trace of the same
+        # module (sub-modules inlined, or kept as call_module leaves when recurse_modules=False)
+        class _Inline(fx.Tracer):
+            def is_leaf_module(self, mod: Any, qualname: str) -> bool:
+                return False
+
+        tracer = _Inline() if recurse else fx.Tracer()
+        mm = copy.deepcopy(m)
+        gmod = fx.GraphModule(mm, tracer.trace(mm))
+        nfloat_nodes = [0]
+
+        class _Count(fx.Interpreter):
+            def run_node(self, n: Any) -> Any:
+                o = super().run_node(n)
+                if n.op != "output" and isinstance(o, torch.Tensor) and o.is_floating_point():
+                    nfloat_nodes[0] += 1
+                return o
+
+        _Count(gmod).run(inp[0].clone())
+        from models.programs import ALPHABET as _AB
+
+        plain_torch = all(not _AB[k]["fn"].startswith("U.") and _AB[k]["fn"] not in ("hand_scaled", "custom_gelu") for k in keys)
+        # (unit-scaled functions are kept as leaf calls by the library's tracer, by design: no independent count there)
+        if plain_torch and len(ann) != nfloat_nodes[0]:
+            viol.append({"key": ident + "|float_tensors_without_scales", "msg":
+                         f"{len(ann)} annotated lines for {nfloat_nodes[0]} float tensors of the traced module\n{code}"})
         if any(f == "n/a" for f, _ in ann):
             viol.append({"key": ident + "|forward_scale_missing", "msg": f"a float tensor is annotated without a forward scale\n{code}"})
         nchk = 0
